@@ -412,6 +412,8 @@ def density(config, ps, **extra):
 
     with contextlib.redirect_stdout(io.StringIO()):
         data = config.data.cal_angle([np.ascontiguousarray(p) for p in ps], **extra)
+        for k, v in extra.items():  # as SimpleData.load_data does with its extra columns
+            data[k] = v
         amp = config.get_amplitude()
         return np.asarray(amp(data)), data
 
